@@ -16,7 +16,7 @@ class Cfg:
     def __init__(self, n_workers=2, work_cap="default", res_cap=None, factory=False, quota=None, wait_ready=False,
                  calls=((3, 1, True),), begin_fault=(), item_fault=(), ready_mid=False, none_inputs=False,
                  body_raises=False, impatient=False, input_kind=0, fault_exc="RuntimeError",
-                 end_fault=(), float_chunks=False):
+                 end_fault=(), float_chunks=False, equal_workers=False):
         """calls: (number of items, chunk_size, ordered)"""
         self.n_workers = n_workers
         self.work_cap = work_cap  # "default" (1.0) | None | int | float
@@ -46,6 +46,8 @@ class Cfg:
         self.end_fault = list(end_fault)
         # chunk sizes are handed over as floats with an integral value (2.0 for 2)
         self.float_chunks = float_chunks
+        # the worker class defines value equality (all workers of a pool compare equal): the pool tells them apart by identity
+        self.equal_workers = equal_workers
 
     @property
     def oracle_only(self):
@@ -73,7 +75,8 @@ class Cfg:
                     quota=self.quota, wait_ready=self.wait_ready, calls=self.calls, begin_fault=self.begin_fault,
                     item_fault=self.item_fault, ready_mid=self.ready_mid, none_inputs=self.none_inputs,
                     body_raises=self.body_raises, impatient=self.impatient, input_kind=self.input_kind,
-                    fault_exc=self.fault_exc, end_fault=self.end_fault, float_chunks=self.float_chunks)
+                    fault_exc=self.fault_exc, end_fault=self.end_fault, float_chunks=self.float_chunks,
+                    equal_workers=self.equal_workers)
 
 
 class SimEnv:
@@ -259,6 +262,14 @@ class SimEnv:
 
             def is_alive(self):
                 return self._sim_thread is not None and not self._sim_thread.finished
+
+            def __eq__(self, other):
+                if env.cfg.equal_workers:
+                    return isinstance(other, SimWorker)
+                return self is other
+
+            def __hash__(self):
+                return 7 if env.cfg.equal_workers else id(self)
 
             def terminate(self):
                 # SIGTERM: the process stops where it stands, nothing of its code runs any more (no `finally`)
